@@ -58,37 +58,64 @@ ASSUMPTIONS = [
     "wrapper counts its invocations and a run without any is vacuous",
     "objects are identified by id(); the pre-state snapshot keeps every object alive, so ids are not reused during a case",
     "attributes are compared through a shallow copy of vars(obj); in-place mutation of a shared PDFGraphicState is not observed",
-    "step budget 200000 + 4000 n^2 (log2 n + 1) + 4000 n cells (n glyphs, cells = 50-unit grid cells of the page) is >= 20x the "
-    "largest cost observed on the intact tree",
+    "step budget 200000 + n^2 (2500 (log2 n + 1) + 300 cells) (n glyphs, cells = 50-unit grid cells of the page) is >= 20x the "
+    "largest cost observed on the intact tree (evidence: budget_used_pct_bucket counters; a case above 5% is reported as "
+    "inconclusive); cases of a shard run in ascending glyph count, so that a runaway is met on a small input first",
     "a text line outside any text box (direct child of the page) is how pdfminer keeps blank or zero-area glyphs; accepted as part of "
     "the hierarchy",
 ]
-SHARD_TIMEOUT = {"quick": 600, "thorough": 5400}
+SHARD_TIMEOUT = {"quick": 1500, "thorough": 5400}
 
 MON.budget_fn = c08mon.default_budget
 
 
 def minimums(tier: str) -> Dict[str, int]:
     if tier == "quick":
-        return {"evaluations": 1500, "distinct": 1200, "analyze_invocations": 1500, "pages_analysed": 1500,
-                "items_conserved:glyph": 40000, "items_conserved:other": 1500, "containers_walked:line": 8000,
-                "containers_walked:box": 5000, "containers_walked:group": 3000, "boxes_index_checked": 5000,
-                "seen:la_family": 9, "seen:blocks": 12, "pdf_pages": 80, "sample_pages": 10,
-                "analyze_invocations:LTFigure": 100, "multi_line_boxes:V": 20, "multi_line_boxes:H": 500}
-    return {"evaluations": 30000, "distinct": 25000, "analyze_invocations": 30000, "pages_analysed": 30000,
-            "items_conserved:glyph": 900000, "items_conserved:other": 30000, "containers_walked:line": 200000,
-            "containers_walked:box": 100000, "containers_walked:group": 60000, "boxes_index_checked": 100000,
-            "seen:la_family": 9, "seen:blocks": 12, "pdf_pages": 2000, "sample_pages": 60,
-            "analyze_invocations:LTFigure": 2000, "multi_line_boxes:V": 500, "multi_line_boxes:H": 10000}
+        return {"evaluations": 2500, "distinct": 2400, "analyze_invocations": 4000, "pages_analysed": 2500, "budgeted_analyses": 2500,
+                "items_conserved:glyph": 100000, "items_conserved:other": 8000, "containers_walked:line": 50000,
+                "containers_walked:box": 30000, "containers_walked:group": 20000, "boxes_index_checked": 30000,
+                "group_leaves_checked": 20000, "seen:la_family": 9, "seen:blocks": 12, "pdf_pages": 100, "sample_pages": 40,
+                "stress_pages": 4, "analyze_invocations:LTFigure": 1200, "containers_walked:unanalysed_figure": 1000,
+                "multi_line_boxes:V": 40, "multi_line_boxes:H": 2500, "lines_outside_boxes": 4000, "inserted_spaces": 3000}
+    return {"evaluations": 40000, "distinct": 38000, "analyze_invocations": 70000, "pages_analysed": 45000, "budgeted_analyses": 45000,
+            "items_conserved:glyph": 2500000, "items_conserved:other": 150000, "containers_walked:line": 900000,
+            "containers_walked:box": 600000, "containers_walked:group": 400000, "boxes_index_checked": 600000,
+            "group_leaves_checked": 400000, "seen:la_family": 9, "seen:blocks": 12, "pdf_pages": 3000, "sample_pages": 250,
+            "stress_pages": 8, "analyze_invocations:LTFigure": 25000, "containers_walked:unanalysed_figure": 20000,
+            "multi_line_boxes:V": 1500, "multi_line_boxes:H": 50000, "lines_outside_boxes": 90000, "inserted_spaces": 70000}
+
+
+# deterministic dear cases (n glyphs scattered over the page box, every glyph its own box with the "zero" parameters):
+# [n, page box, LAParams family, boxes_flow]
+STRESS = {
+    "quick": [[100, [0, 0, 50, 50], "zero", 0.5], [300, [0, 0, 612, 792], "zero", 0.5], [200, [0, 0, 612, 792], "huge", None],
+              [150, [0, 0, 2048, 2048], "default", -1]],
+    "thorough": [[200, [0, 0, 50, 50], "zero", 0.5], [400, [0, 0, 612, 792], "zero", 0.5], [400, [0, 0, 612, 792], "huge", None],
+                 [400, [0, 0, 2048, 2048], "default", -1], [160, [0, 0, 1, 1], "zero", 1], [400, [0, 0, 4096, 64], "zero", 0],
+                 [400, [0, 0, 612, 792], "vertical", 0.5], [400, [-306, -396, 306, 396], "typical", -0.5]],
+}
+
+
+def gen_stress(st: List[Any], seed: int) -> Dict[str, Any]:
+    (n, bbox, fam, flow) = st
+    rng = random.Random("C08/stress/%d/%r" % (seed, st))
+    items: List[Any] = []
+    while len(items) < n:
+        items += c08gen.blk_scatter(rng, bbox, n - len(items))
+    la = c08gen.gen_la(rng, fam)
+    la["boxes_flow"] = flow
+    return {"bbox": list(bbox), "rotate": 0, "items": items, "la": la, "la_family": fam, "blocks": {"scatter": 1}}
 
 
 def shards(tier: str, seed: int) -> List[Dict[str, Any]]:
     qk = tier == "quick"
     out: List[Dict[str, Any]] = []
     for i in range(64 if qk else 192):
-        out.append({"kind": "scene", "sub": i, "n": 45 if qk else 170})
+        out.append({"kind": "scene", "sub": i, "n": 45 if qk else 250})
     for i in range(12 if qk else 48):
-        out.append({"kind": "pdf", "sub": i, "n": 10 if qk else 40})
+        out.append({"kind": "pdf", "sub": i, "n": 10 if qk else 60})
+    for i, st in enumerate(STRESS[tier]):
+        out.append({"kind": "stress", "sub": i, "stress": st})
     files = sample_files(tier)
     k = 4 if qk else 12
     for i in range(k):
@@ -176,12 +203,12 @@ def run_scene(scene: Dict[str, Any], rec: Any = None) -> List[Tuple[str, str]]:
     try:
         page.analyze(la)
     except StepBudgetExceeded as e:
-        fails.append(("step_budget", "%s (glyphs=%s)" % (e, MON.stack[0].nglyphs if MON.stack else "?")))
+        fails.append(("step_budget", "%s (glyphs=%d)" % (e, _nglyphs(scene["items"]))))
     except RecursionError as e:
         fails.append(("exception:RecursionError", repr(e)[:200]))
     except Exception as e:  # noqa: BLE001
         fails.append((_exc_key(e), "%s: %s" % (type(e).__name__, e)))
-    top = MON.last_top
+    tops = list(MON.tops)
     mfails, stats = MON.drain()
     fails.extend(mfails)
     if not fails:
@@ -197,10 +224,18 @@ def run_scene(scene: Dict[str, Any], rec: Any = None) -> List[Tuple[str, str]]:
             rec.count(k, v)
         rec.count("pages_analysed")
         rec.count("scene_pages")
-        if top is not None and top.steps is not None and top.budget:
-            rec.count("budget_used_pct_bucket:%s" % _bucket(100.0 * top.steps / top.budget))
-            rec.count("steps_total", top.steps)
+        _budget_stats(tops, rec, bool(fails))
     return fails
+
+
+def _budget_stats(tops: List[Tuple[int, int, int]], rec: Any, failed: bool) -> None:
+    for (_n, steps, budget) in tops:
+        pct = 100.0 * steps / budget
+        rec.count("budget_used_pct_bucket:%s" % _bucket(pct))
+        rec.count("steps_total", steps)
+        rec.count("budgeted_analyses")
+        if pct > 5 and not failed:
+            rec.inconclusive("budget_margin_below_20x")
 
 
 def _bucket(p: float) -> str:
@@ -214,24 +249,36 @@ def _nglyphs(items: List[Any]) -> int:
     return sum(1 if it[0] == "c" else _nglyphs(it[3]) if it[0] == "f" else 0 for it in items)
 
 
-def pick_n(rng: random.Random, tier: str, la_family: str) -> int:
+def pick_n(rng: random.Random, tier: str, la: Dict[str, Any]) -> int:
+    """Number of glyphs.  The hierarchical grouping (boxes_flow given) is cubic once a box as large as the page
+    has formed, a page of 400 glyphs then costs a minute under the step monitor: such pages are rare in the
+    thorough tier (mostly <= 200 there) and capped at 160 glyphs in the quick tier; with boxes_flow=None the full
+    range 0..400 is cheap and used in both tiers."""
     r = rng.random()
     if r < 0.04:
         return rng.choice([0, 0, 1, 1, 2])
-    if r < 0.45:
+    if r < 0.47:
         return rng.randint(2, 25)
-    if r < 0.80:
+    if r < 0.84:
         return rng.randint(20, 80)
-    if r < 0.95:
-        return rng.randint(80, 160)
-    return rng.randint(160, 400)
+    heavy = la["boxes_flow"] is not None
+    if r < 0.975:
+        n = rng.randint(80, 160)
+        return 60 + n // 2 if heavy and tier == "quick" else n          # quick: 100..140
+    n = rng.randint(160, 400)
+    if heavy and tier == "quick":
+        return 120 + n // 10                                           # quick: 136..160
+    if heavy and n > 200 and rng.random() > 0.06:
+        n = 160 + (n - 160) // 6
+    return n
 
 
 def gen_scene_case(seed_str: str, tier: str) -> Dict[str, Any]:
     rng = random.Random(seed_str)
     fam = rng.choice(c08gen.LA_FAMILIES)
-    n = pick_n(rng, tier, fam)
-    return c08gen.gen_scene(rng, n, fam, dense_cap=100 if tier == "quick" else 160)
+    la = c08gen.gen_la(rng, fam)
+    n = pick_n(rng, tier, la)
+    return c08gen.gen_scene(rng, n, fam, dense_cap=100 if tier == "quick" else 160, la=la)
 
 
 # ----------------------------------------------------------------------------
@@ -285,8 +332,11 @@ def run_pdf(data: bytes, la_spec: Dict[str, Any], rec: Any = None, password: str
         fails.append(("exception:RecursionError", repr(e)[:200]))
     except Exception as e:  # noqa: BLE001
         fails.append((_exc_key(e), "%s: %s" % (type(e).__name__, e)))
+    tops = list(MON.tops)
     mfails, stats = MON.drain()
     fails.extend(mfails)
+    if rec is not None:
+        _budget_stats(tops, rec, bool(fails))
     if npages and stats.get("analyze_invocations", 0) < npages:
         fails.append(("harness:analyze_not_observed", "%d pages, %d invocations" % (npages, stats.get("analyze_invocations", 0))))
     if rec is not None:
@@ -333,6 +383,19 @@ def run_sample(rel: str, la_i: int, maxpages: int, rec: Any = None) -> List[Tupl
 
 
 # ----------------------------------------------------------------------------
+MAX_FAILING_CASES = 8
+_FAILING = [0]
+
+
+def _runaway(fails: List[Tuple[str, str]]) -> bool:
+    """Should the shard stop?  A budget hit costs minutes, and a defect that duplicates content can make
+    every further (larger) case dearer: once a budget hit or MAX_FAILING_CASES failing cases are recorded
+    the run is a violation anyway (the Recorder keeps 3 cases per key), so the rest of the shard is skipped."""
+    if fails:
+        _FAILING[0] += 1
+    return _FAILING[0] >= MAX_FAILING_CASES or any(k == "step_budget" or k.startswith("exception:MemoryError") for k, _ in fails)
+
+
 def run_shard(spec: Dict[str, Any], rec: Any) -> None:
     from vf.common import quiet_logging
 
@@ -340,9 +403,13 @@ def run_shard(spec: Dict[str, Any], rec: Any) -> None:
     tier = spec["tier"]
     kind = spec["kind"]
     if kind == "scene":
+        cases = []
         for i in range(spec["n"]):
             s = "C08/%d/%d/%d" % (spec["seed"], spec["sub"], i)
             scene = gen_scene_case(s, tier)
+            cases.append((_nglyphs(scene["items"]), i, scene))
+        cases.sort(key=lambda c: c[:2])     # small pages first: a runaway then costs a small budget
+        for pos, (_ng, i, scene) in enumerate(cases):
             fails = run_scene(scene, rec)
             ng = _nglyphs(scene["items"])
             rec.case(chash(scene["bbox"], scene["items"], scene["la"]), ng >= 2)
@@ -359,6 +426,16 @@ def run_shard(spec: Dict[str, Any], rec: Any) -> None:
                 rec.fail(k, {"kind": "scene", "scene": scene}, detail + " | la=%r glyphs=%d" % (scene["la"], ng))
             if rec.want_sample() and 3 <= ng <= 8 and len(scene["items"]) <= 10:
                 rec.sample({"scene": scene})
+            if _runaway(fails):
+                rec.count("cases_skipped_after_budget_hit", len(cases) - pos - 1)
+                break
+    elif kind == "stress":
+        scene = gen_stress(spec["stress"], spec["seed"])
+        fails = run_scene(scene, rec)
+        rec.case(chash(scene["bbox"], scene["items"], scene["la"]), True)
+        rec.count("stress_pages")
+        for k, detail in fails:
+            rec.fail(k, {"kind": "scene", "scene": scene}, detail + " | stress %r" % (spec["stress"],))
     elif kind == "pdf":
         for i in range(spec["n"]):
             s = "C08/pdf/%d/%d/%d" % (spec["seed"], spec["sub"], i)
@@ -372,6 +449,9 @@ def run_shard(spec: Dict[str, Any], rec: Any) -> None:
                 rec.see("pdf_features", f)
             for k, detail in fails:
                 rec.fail(k, {"kind": "pdf", "pdf": case["pdf"], "la": case["la"]}, detail + " | la=%r" % (case["la"],))
+            if _runaway(fails):
+                rec.count("cases_skipped_after_budget_hit", spec["n"] - i - 1)
+                break
     elif kind == "samples":
         maxpages = 2 if tier == "quick" else 6
         for rel in spec["files"]:
@@ -384,6 +464,9 @@ def run_shard(spec: Dict[str, Any], rec: Any) -> None:
                 rec.see("sample_files", rel)
                 for k, detail in fails:
                     rec.fail(k, {"kind": "sample", "file": rel, "la_i": la_i, "maxpages": maxpages}, "%s: %s" % (rel, detail))
+                if _runaway(fails):
+                    rec.count("cases_skipped_after_budget_hit")
+                    return
     else:
         raise ValueError(kind)
 
